@@ -25,7 +25,7 @@ CLAIMED["C08"] = dict(
          "of the (ack, ack_bits) predicate; tied to connection.py by differential runs on the real SeqNum/BitField/"
          "_handle_ack_bits (thorough: exhaustive 65535-value table) and monitors.",
     note=TRUST + "window theorems assume each inserted number within 32767 of the newest (the property's bound).",
-    design="§8 C08", technique="Lean 4 proof (omega ring arithmetic, testBit refinement to a set) + differential correspondence")
+    design="§8 C08", technique="Lean 4 proof (omega ring arithmetic, testBit refinement to a set) + differential correspondence + kernels regenerated from the source by a translator and proved equal to the model (Props/Equiv*.lean)")
 
 CLAIMED["C17"] = dict(
     text="Lean theorems for EVERY root, file name and absolute cwd: path_join_safe returns ValueError or a normalised path that "
@@ -110,7 +110,7 @@ CLAIMED["C09"] = dict(
          "hundreds of tiny messages at MTU 512..1500.",
     note=TRUST + "the decoded header's isServer flag denotes the receiving side (as in the code); AES-GCM facts are explicit hypotheses; "
          "C09_build_total assumes message sequence numbers < 65536 and MTU <= 65535.",
-    design="§8 C09", technique="Lean 4 proof (codec inverses, packing invariant, permutation conservation) + differential correspondence")
+    design="§8 C09", technique="Lean 4 proof (codec inverses, packing invariant, permutation conservation) + differential correspondence + kernels regenerated from the source by a translator and proved equal to the model (Props/Equiv*.lean)")
 
 CLAIMED["C18"] = dict(
     text="Lean theorems: for every wire opcode, mask flag, key and payload (any length < 2^63) the library's frame bytes equal an "
@@ -135,7 +135,7 @@ CLAIMED["C04"] = dict(
          "replayed on every run. Model tied to connection.py by two-party differentials under heavy duplication/delay/replay.",
     note=TRUST + "the property's own half-ring bound; handshake handlers do not touch the datagram window; message-level statement is partial "
          "(see known_findings.json).",
-    design="§8 C04", technique="Lean 4 proof (window-refines-set + Nodup invariant over operation histories) + differential correspondence")
+    design="§8 C04", technique="Lean 4 proof (window-refines-set + Nodup invariant over operation histories) + differential correspondence + kernels regenerated from the source by a translator and proved equal to the model (Props/Equiv*.lean)")
 
 CLAIMED["C06"] = dict(
     text="Lean theorems: for EVERY payload and every size configuration with a usable fragment size (every MTU >= 73) FragmentSender.build "
@@ -166,7 +166,7 @@ CLAIMED["C07"] = dict(
     note=TRUST + "InSync (peer's newest within half a ring); user callbacks do not re-enter; 'accepted' is read at endpoint level; "
          "at-most-once and conservation (exactly-once once released) over whole histories are Lean theorems (potential argument); eventual "
          "release of every holder is per-sweep theorem + monitor.",
-    design="§8 C07", technique="Lean 4 proof (per-step bookkeeping theorems, ack-names-accepted composition) + differential correspondence")
+    design="§8 C07", technique="Lean 4 proof (per-step bookkeeping theorems, ack-names-accepted composition) + differential correspondence + kernels regenerated from the source by a translator and proved equal to the model (Props/Equiv*.lean)")
 
 CLAIMED["C05"] = dict(
     text="Lean theorems for the steps guaranteed delivery consists of, each for every state: a message of ANY size accepted by send fits a "
@@ -235,7 +235,7 @@ CLAIMED["C13"] = dict(
          "differential runs on generated values/classes/enums (width boundaries, float specials as bit patterns, size limits, refusals).",
     note=TRUST + "InDomain is explicit and decidable (well typed + Python set/dict canonicalisation succeeds); enum members mixed with raw values of "
          "equal hash in one set/dict are outside it (late AttributeError at decode, counted by the monitor, see DESIGN).",
-    design="§8 C13", technique="Lean 4 proof (mutual round-trip induction with fuel, canonicalisation) + differential correspondence")
+    design="§8 C13", technique="Lean 4 proof (mutual round-trip induction with fuel, canonicalisation) + differential correspondence + kernels regenerated from the source by a translator and proved equal to the model (Props/Equiv*.lean)")
 
 CLAIMED["C14"] = dict(
     text="Lean theorems for EVERY byte string and registry: the decoder is total - a value or one of the enumerated ordinary exception "
